@@ -12,11 +12,21 @@ use gix_object::bstr::{BString, ByteSlice};
 use gix_ref::packed;
 use vp::*;
 
-#[derive(Clone, Debug, PartialEq, Eq, Hash)]
+#[derive(Clone, PartialEq, Eq, Hash)]
 struct Rec {
     name: Vec<u8>,
     target: Vec<u8>,
     peeled: Option<Vec<u8>>,
+}
+
+impl std::fmt::Debug for Rec {
+    fn fmt(&self, f: &mut std::fmt::Formatter<'_>) -> std::fmt::Result {
+        write!(f, "{} {}", self.target.as_bstr(), self.name.as_bstr())?;
+        if let Some(p) = &self.peeled {
+            write!(f, " ^{}", p.as_bstr())?;
+        }
+        Ok(())
+    }
 }
 
 #[derive(Clone, Copy, Debug, PartialEq, Eq, Hash)]
@@ -438,7 +448,7 @@ fn check_queries(
     n
 }
 
-fn main() {
+pub fn main() {
     let mut ck = Check::new("C19", "exploration");
     ck.rule("packed-refs buffers of 0..200 distinct valid names under refs/{heads,tags,remotes/o,notes,x,...} built from components {a,b,a-,a.b,a0,ab,-,0,A,a-b,z,a+} and derived from each other (child, sibling, suffix byte below/above '/'), occasional 1..70 byte long components; 40-digit targets, peeled lines with probability 0/23/50/90 %; header with `sorted` (records in byte order), header without `sorted` (shuffled or ordered), no header (shuffled); LF, CRLF or mixed line ends; opened from bytes, from a file, or memory mapped. Queries: every present name, absent neighbours (last byte dropped/+1/-1, suffix '-', '0', '!', '/a', parent), names before the first and after the last record, short names resolved in the documented order. Non-trivial: >= 3 records, at least one peeled line, all present names and at least one absent neighbour queried. The corrupt sub-check damages 1..2 lines (bad hex digit, hash cut short, invalid name, broken peeled line, joined lines, buffer cut inside the last record). Distinct by decoded buffer + damage.");
     ck.assume("names are distinct within a buffer (duplicates would make 'the record a linear scan returns' depend on tie-breaking of the on-the-fly sort); a header that claims `sorted` is only generated over records that are in byte order");
